@@ -115,7 +115,19 @@ func (iq *IndexQuery) FetchCollection(db *badger.DB) ([]string, error) {
 		opts.Reverse = iq.Reverse
 		it := txn.NewIterator(opts)
 		defer it.Close()
-		for it.Seek(queryPrefix); it.ValidForPrefix(queryPrefix); it.Next() {
+		seek := queryPrefix
+		if iq.Reverse {
+			// A reverse iterator seeks to the largest key less than or equal
+			// to the seek key. To start at the last key having the prefix, we
+			// seek to the smallest key greater than all keys with the prefix.
+			seek = prefixSuccessor(queryPrefix)
+		}
+		it.Seek(seek)
+		// Skip the seek key itself, as it does not have the prefix.
+		if iq.Reverse && it.Valid() && bytes.Equal(it.Item().Key(), seek) {
+			it.Next()
+		}
+		for ; it.ValidForPrefix(queryPrefix); it.Next() {
 			k := it.Item().Key()
 			idx := bytes.LastIndexByte(k, idSeparator)
 			if idx < 0 {
@@ -154,4 +166,18 @@ func (iq *IndexQuery) FetchCollection(db *badger.DB) ([]string, error) {
 	}
 
 	return result, nil
+}
+
+// prefixSuccessor returns the smallest key that is greater than all keys having
+// the prefix. The prefix must contain at least one byte other than 0xFF, which
+// is always true for a query prefix as it contains the ':' name separator.
+func prefixSuccessor(prefix []byte) []byte {
+	i := len(prefix) - 1
+	for i >= 0 && prefix[i] == 0xFF {
+		i--
+	}
+	s := make([]byte, i+1)
+	copy(s, prefix)
+	s[i]++
+	return s
 }
